@@ -26,11 +26,16 @@
 (*                  :8448 | refuse                                         *)
 (*   lat.baddeleg - m.server is not a valid server name: refuse | treat    *)
 (*                  the well-known reply as invalid (step 4 on the origin) *)
+(*   lat.redirect - the well-known request is answered with a redirect to  *)
+(*                  a document that would be honoured: follow | ignore     *)
+(*                  (the property only speaks of "status 200")             *)
+(*   lat.tie      - order of SRV records of equal priority (RFC 2782:      *)
+(*                  weighted random): "ab" | "ba"                          *)
 (***************************************************************************)
 EXTENDS Integers, Sequences, FiniteSets, TLC
 
 DefaultPort == 8448
-NoPort == 0                   \* "the name carries no port"
+NoPort == -1                 \* "the name carries no port" (0 is a port)
 MaxWellKnown == 51200         \* 50 KiB
 
 \* ---------------------------------------------------------------- vocabulary
@@ -48,20 +53,30 @@ Target(dh, dp, name) ==            \* a connection target on behalf of `name`
 \*   size: "small" | "eq50k" (exactly 50 KiB) | "over50k";  cl: a Content-Length header is present
 \*   body: "ok" (JSON object whose m.server is a non-empty string) | "malformed" | "no_mserver"
 \*         | "empty_mserver" | "wrongtype";  target: the name m.server spells (body = "ok")
-Honoured(wk) == wk.status = 200 /\ wk.size # "over50k" /\ wk.body = "ok"
+\*   redir: "none" | "loop" (redirects to itself for ever: there never is a reply) | "ok" (redirects once,
+\*          to a document with the size / body described here, served with status 200)
+GoodDoc(w) == w.size # "over50k" /\ w.body = "ok"
 
 \* An SRV answer: rc "ok" (records, in wire order) | "nx" (NXDOMAIN) | "nodata" | "err" (SERVFAIL)
 NoRecord(a) == a.rc \in {"nx", "nodata"} \/ (a.rc = "ok" /\ a.recs = <<>>)
-ByPriority(recs) == SortSeq(recs, LAMBDA a, b : a.prio < b.prio)    \* RFC 2782: lowest priority value first
+
+\* The SRV table is keyed by DNS name.  Spellings that differ only in letter case or by a trailing dot
+\* are the same DNS name: tokens SU (upper-case S), DU, Ddot.
+DnsKey(h) == CASE h \in {"S", "SU"} -> "S" [] h \in {"D", "DU", "Ddot"} -> "D" [] OTHER -> h
 
 VARIABLES
     origin,     \* the server name to resolve                      } scenario,
     wk,         \* what https://<origin>/.well-known/... answers   } fixed in Init
-    srv,        \* [origin|deleg] -> [fed|legacy] -> SRV answer    }
+    srv,        \* DNS name [S|D] -> [fed|legacy] -> SRV answer    }
     lat,        \* latitude (see above)                            }
     pc, cur, role,        \* step, name being resolved, "origin" | "deleg"
     result, refused,      \* outcome
     wkreqs, srvq, steps   \* history: well-known requests (hosts), SRV queries, steps taken
+
+\* RFC 2782: lowest priority value first; records of equal priority (field tb = 1, 2 tells them apart) in either order
+ByPriority(recs) == SortSeq(recs, LAMBDA a, b :
+    a.prio * 4 + (IF lat.tie = "ab" THEN a.tb ELSE 3 - a.tb) < b.prio * 4 + (IF lat.tie = "ab" THEN b.tb ELSE 3 - b.tb))
+Honoured(w) == GoodDoc(w) /\ (w.status = 200 \/ (w.redir = "ok" /\ lat.redirect = "follow"))
 
 scen == <<origin, wk, srv, lat>>
 vars == <<origin, wk, srv, lat, pc, cur, role, result, refused, wkreqs, srvq, steps>>
@@ -125,7 +140,7 @@ SRVFed ==
     /\ pc = "srvfed" /\ Did("srvfed")
     /\ srvq' = Append(srvq, <<"fed", cur.host>>)
     /\ UNCHANGED <<scen, cur, role, wkreqs>>
-    /\ LET a == srv[role].fed IN
+    /\ LET a == srv[DnsKey(cur.host)].fed IN
        IF a.rc = "ok" /\ a.recs # <<>> THEN Finish(SrvTargets(a.recs)) /\ UNCHANGED refused
        ELSE IF NoRecord(a) THEN pc' = "srvlegacy" /\ UNCHANGED <<result, refused>>
        ELSE OnSrvError("srvlegacy")
@@ -135,7 +150,7 @@ SRVLegacy ==
     /\ pc = "srvlegacy" /\ Did("srvlegacy")
     /\ srvq' = Append(srvq, <<"legacy", cur.host>>)
     /\ UNCHANGED <<scen, cur, role, wkreqs>>
-    /\ LET a == srv[role].legacy IN
+    /\ LET a == srv[DnsKey(cur.host)].legacy IN
        IF a.rc = "ok" /\ a.recs # <<>> THEN Finish(SrvTargets(a.recs)) /\ UNCHANGED refused
        ELSE IF NoRecord(a) THEN pc' = "default" /\ UNCHANGED <<result, refused>>
        ELSE OnSrvError("default")
@@ -156,7 +171,7 @@ Done == pc = "done"
 Plain(n) == n.valid /\ n.lit = "no" /\ n.port = NoPort
 Delegated == Plain(origin) /\ Honoured(wk) /\ wk.target.valid
 Effective == IF Delegated THEN wk.target ELSE origin
-EffRole == IF Delegated THEN "deleg" ELSE "origin"
+EffRole == DnsKey(Effective.host)
 
 \* every target carries the Host header / TLS name its step prescribes
 HostSNI == Done /\ ~refused =>
@@ -189,7 +204,7 @@ InvalidRefused == Done /\ ~origin.valid => refused /\ result = <<>> /\ wkreqs = 
 RefusedOnlyIf == refused =>
     \/ ~origin.valid
     \/ (Plain(origin) /\ Honoured(wk) /\ ~wk.target.valid /\ lat.baddeleg = "refuse")
-    \/ (lat.srverr = "refuse" /\ \E r \in {"origin", "deleg"}, s \in {"fed", "legacy"} : srv[r][s].rc = "err")
+    \/ (lat.srverr = "refuse" /\ \E r \in {"S", "D"}, s \in {"fed", "legacy"} : srv[r][s].rc = "err")
 InvalidDelegationNeverFollowed == Done /\ Plain(origin) /\ Honoured(wk) /\ ~wk.target.valid =>
     \A i \in DOMAIN result : result[i].sni = origin.host
 
@@ -217,11 +232,11 @@ FedBeforeLegacy == \A i \in DOMAIN srvq :
 SrvOnlyPlain == \A i \in DOMAIN srvq : srvq[i][2] \in {origin.host, wk.target.host} /\ srvq[i][2] = Effective.host
 
 \* ------------------------------------------- well-known cache lifetime (small, separate)
-\* maxAge: seconds from Cache-Control max-age, or -1 when no usable max-age directive is present
-\* expires: seconds from now of a parseable Expires header, or -1
-\* max-age is preferred over Expires (RFC 7234 section 5.3).  The code documents no lower / upper bound.
+\* maxAge / expires: [has |-> a usable value is present, v |-> seconds (max-age) resp. seconds from now (Expires)]
+\* max-age is preferred over Expires (RFC 7234 section 5.3).  Expires may lie in the past, max-age may be 0:
+\* both are usable values (the reply is stale at once).  The code documents no lower / upper bound.
 CacheLifetime(maxAge, expires) ==
-    IF maxAge >= 0 THEN [kind |-> "relative", secs |-> maxAge]
-    ELSE IF expires >= 0 THEN [kind |-> "absolute", secs |-> expires]
+    IF maxAge.has THEN [kind |-> "relative", secs |-> maxAge.v]
+    ELSE IF expires.has THEN [kind |-> "absolute", secs |-> expires.v]
     ELSE [kind |-> "none", secs |-> 0]
 =============================================================================
